@@ -29,11 +29,11 @@ Section BzRead.
 
   Lemma bz_read_loop_spec rd :
     dec_ok BUF dec (rd_bytes rd) ->
-    forall fuel st nbytes out,
+    forall c fuel st nbytes out,
       bz_win rd st -> 0 <= b_pos st <= b_end st -> 0 <= nbytes ->
       len (rd_bytes rd) - (b_base st + b_end st) < Z.of_nat fuel ->
       exists st' nb' out' early,
-        bz_read_loop dec fuel (rd_bytes rd) st nbytes out = Some (st', nb', out', early) /\
+        bz_read_loop dec c (rd_size rd) fuel (rd_bytes rd) st nbytes out = Some (st', nb', out', early) /\
         bz_win rd st' /\ 0 <= b_pos st' <= b_end st' /\
         r_fpos st' = r_fpos st /\ r_open st' = r_open st /\
         cur st <= cur st' /\
@@ -43,7 +43,7 @@ Section BzRead.
         (early = false -> nb' <= b_end st' - b_pos st' \/
                           (b_pos st' = 0 /\ b_base st' + b_end st' = len (rd_bytes rd))).
   Proof.
-    intros Hdec. induction fuel as [|fuel IH]; intros st nbytes out Hw Hp Hn Hf.
+    intros Hdec c. induction fuel as [|fuel IH]; intros st nbytes out Hw Hp Hn Hf.
     { destruct Hw as (_ & _ & Hw & _). lia. }
     cbn [bz_read_loop].
     destruct (nbytes >? b_end st - b_pos st) eqn:E.
@@ -64,7 +64,9 @@ Section BzRead.
       destruct Hw as (H0 & H1 & H2 & H3 & H4). specialize (H4 Hs).
       unfold cur. cbn. split; [exact Hw1|]. split; [lia|]. do 2 (split; [reflexivity|]). split; [lia|].
       split; [unfold d; do 2 f_equal; lia|]. split; [lia|]. split; [lia|]. split; [intros _; lia|discriminate].
-    - pose proof (bz_load_win BUF dec rd st1 0 Hdec Hw1 Hs) as (Hw2 & Hp2 & Hb2 & Hfp2 & Ho2 & _ & Hse2 & Hfull).
+    - change (b_base st1) with (b_base st). change (b_end st1) with (b_end st).
+      rewrite (dec_ok_no_err BUF dec _ _ Hdec) by (destruct Hw as (? & ? & ? & _); lia).
+      pose proof (bz_load_win BUF dec rd st1 0 Hdec Hw1 Hs) as (Hw2 & Hp2 & Hb2 & Hfp2 & Ho2 & _ & Hse2 & Hfull).
       destruct (bz_load dec (rd_bytes rd) st1 0) as [st2 fin] eqn:El. cbn [fst snd] in *.
       change (b_base st1) with (b_base st) in Hb2. change (b_end st1) with (b_end st) in Hb2.
       destruct fin.
@@ -106,7 +108,7 @@ Section BzRead.
     assert (Hcl : 0 <= cur st <= len (rd_bytes rd)).
     { destruct Hw as (H0 & H1 & H2 & _). unfold cur. lia. }
     unfold bz_read.
-    destruct (bz_read_loop_spec rd Hdec (bz_fuel (rd_bytes rd)) st (n * rd_size rd) [] Hw Hp ltac:(nia))
+    destruct (bz_read_loop_spec rd Hdec c (bz_fuel (rd_bytes rd)) st (n * rd_size rd) [] Hw Hp ltac:(nia))
       as (st' & nb' & out' & early & Hl & Hw' & Hp' & Hfp' & Ho' & Hc' & Hout & Hnb & Hnb0 & He1 & He2).
     { destruct Hw as (H0 & H1 & _). unfold bz_fuel, len. lia. }
     rewrite Hl. cbn [app] in Hout. unfold bz_count. rewrite Hfix.
@@ -114,6 +116,7 @@ Section BzRead.
     { destruct Hw' as (H0 & H1 & H2 & _). unfold cur. lia. }
     destruct early.
     - destruct (He1 eq_refl) as [Hce Hpos].
+      replace (nb' <? 0) with false by (symmetry; apply Z.ltb_ge; lia).
       assert (Hd : delivered rd (cur st) n = len (rd_bytes rd) - cur st) by (unfold delivered; lia).
       do 2 eexists. split.
       { rewrite Hnb, Hce, Hd. do 3 f_equal. lia. }
@@ -146,17 +149,21 @@ Section BzRead.
   Qed.
 
   (* the read contract of the window codec: same statement as for raw and text *)
-  Lemma bz_read_spec c rd st p n :
-    wf_rd rd -> rd_enc rd = EBz -> dec_ok BUF dec (rd_bytes rd) -> fix_bz_eof c = true ->
-    At rd st p -> 0 <= n ->
-    exists st' bs cnt, bz_read dec c (rd_bytes rd) (rd_size rd) st n = Some (st', bs, cnt) /\
-      cnt = read_count rd p n /\ cnt * rd_size rd <= len bs /\
-      firstn (Z.to_nat (cnt * rd_size rd)) bs = slice (rd_bytes rd) (p * rd_size rd) (cnt * rd_size rd) /\
-      At rd st' (p + cnt).
+  (* from what a read leaves behind (window, bytes delivered, file->pos) to the read contract *)
+  Lemma bz_tuple_At rd st p n st' out :
+    wf_rd rd -> rd_enc rd = EBz -> At rd st p -> 0 <= n ->
+    bz_win rd st' -> 0 <= b_pos st' <= b_end st' -> r_open st' = r_open st ->
+    cur st' = cur st + delivered rd (cur st) n ->
+    out = slice (rd_bytes rd) (cur st) (delivered rd (cur st) n) ->
+    r_fpos st' = (cur st + delivered rd (cur st) n) / rd_size rd ->
+    0 <= delivered rd (cur st) n ->
+    delivered rd (cur st) n / rd_size rd = read_count rd p n /\
+    delivered rd (cur st) n / rd_size rd * rd_size rd <= len out /\
+    firstn (Z.to_nat (delivered rd (cur st) n / rd_size rd * rd_size rd)) out =
+      slice (rd_bytes rd) (p * rd_size rd) (delivered rd (cur st) n / rd_size rd * rd_size rd) /\
+    At rd st' (p + delivered rd (cur st) n / rd_size rd).
   Proof.
-    intros Hwf He Hdec Hfix (Ho & Hf & Hp0 & Hm) Hn. rewrite He in Hm. destruct Hm as (Hw & Hpos & Hco).
-    destruct (bz_read_bytes c rd st n Hwf Hdec Hfix Hw Hpos Hn)
-      as (st' & out & Hr & Hw' & Hp' & Ho' & Hc' & Hout & Hfp' & Hd0).
+    intros Hwf He (Ho & Hf & Hp0 & Hm) Hn Hw' Hp' Ho' Hc' Hout Hfp' Hd0. rewrite He in Hm. destruct Hm as (Hw & Hpos & Hco).
     pose proof (nsamp_bounds rd Hwf) as (Hns0 & Hns1 & Hns2). destruct Hwf as [Hs Hfo].
     fold (cur st) in Hco. set (S := rd_bytes rd) in *. set (size := rd_size rd) in *.
     set (D := delivered rd (cur st) n) in *.
@@ -165,7 +172,6 @@ Section BzRead.
     assert (HD : D = Z.min (n * size) (len S - cur st)) by reflexivity.
     assert (Hlen : len out = D).
     { rewrite Hout, slice_len by lia. lia. }
-    exists st', out, (D / size). split; [exact Hr|].
     unfold coh in Hco. fold size S in Hco.
     destruct Hco as [Hal|[Hpe Htail]].
     - (* aligned *)
@@ -201,5 +207,23 @@ Section BzRead.
         symmetry. apply Z.div_unique with (r := cur st + D - nsamp rd * size); lia.
       + split; [lia|]. split; [exact Hw'|]. split; [exact Hp'|].
         right. fold (cur st'). rewrite Hc'. fold size S. split; [lia|lia].
+  Qed.
+
+  Lemma bz_read_spec c rd st p n :
+    wf_rd rd -> rd_enc rd = EBz -> dec_ok BUF dec (rd_bytes rd) -> fix_bz_eof c = true ->
+    At rd st p -> 0 <= n ->
+    exists st' bs cnt, bz_read dec c (rd_bytes rd) (rd_size rd) st n = Some (st', bs, cnt) /\
+      cnt = read_count rd p n /\ cnt * rd_size rd <= len bs /\
+      firstn (Z.to_nat (cnt * rd_size rd)) bs = slice (rd_bytes rd) (p * rd_size rd) (cnt * rd_size rd) /\
+      At rd st' (p + cnt).
+  Proof.
+    intros Hwf He Hdec Hfix Hat Hn.
+    assert (Hm : bz_win rd st /\ 0 <= b_pos st <= b_end st).
+    { destruct Hat as (_ & _ & _ & Hm). rewrite He in Hm. tauto. }
+    destruct Hm as [Hw Hpos].
+    destruct (bz_read_bytes c rd st n Hwf Hdec Hfix Hw Hpos Hn)
+      as (st' & out & Hr & Hw' & Hp' & Ho' & Hc' & Hout & Hfp' & Hd0).
+    exists st', out, (delivered rd (cur st) n / rd_size rd). split; [exact Hr|].
+    apply (bz_tuple_At rd st p n st' out Hwf He Hat Hn Hw' Hp' Ho' Hc' Hout Hfp' Hd0).
   Qed.
 End BzRead.
